@@ -493,6 +493,8 @@ func main() {
 	respIP := flag.String("ip", "", "responder mode: answer the ARP request for this address")
 	respAfter := flag.Duration("after", 200*time.Millisecond, "responder mode: answer this long after the request")
 	respTotal := flag.Duration("total", 20*time.Second, "responder mode: overall timeout")
+	respRepeat := flag.Int("repeat", 1, "responder mode: send the reply this many times")
+	respEvery := flag.Duration("every", 200*time.Millisecond, "responder mode: pause between repeated replies")
 	respSkip := flag.Int("skip", 0, "responder mode with -ip any: leave this many requests unanswered first")
 	parseMode := flag.Bool("parse", false, "parse mode: --exit-delay through every command's flag set and parseRawOptions")
 	rxMode := flag.Int("rx", 0, "rx mode: real receiver over a quiet reader, runs with up to this many consecutive temporary errors")
@@ -507,7 +509,7 @@ func main() {
 		return
 	}
 	if *respIface != "" {
-		respond(*out, *respIface, *respIP, *respAfter, *respTotal, *respSkip)
+		respond(*out, *respIface, *respIP, *respAfter, *respTotal, *respSkip, *respRepeat, *respEvery)
 		return
 	}
 	w := hlib.NewOut(*out)
